@@ -45,3 +45,19 @@ Proof.
   cbv beta delta [C13_comp_marg_a0_R]. walk; simpl; try reflexivity;
   repeat split; match goal with H : ?t = _ |- ?t = _ => rewrite H; ring end.
 Qed.
+
+(* the quaternion built from the gyro-integrated angles of the MARG driver is unit *)
+Definition comp7_leaf (o : outcome R) : Prop :=
+  match o with
+  | Val [u0; u1; u2; p0; p1; p2; p3] => sq4 p0 p1 p2 p3 = 1
+  | Val _ => False
+  | Raise e => e = ValueError
+  end.
+Lemma comp_marg_a0_unit r0 p0 y0 h0 h1 h2 g0 g1 g2 a0 a1 a2 n0 n1 n2 m0 m1 m2 :
+  comp7_leaf (C13_comp_marg_a0_R r0 p0 y0 h0 h1 h2 g0 g1 g2 a0 a1 a2 n0 n1 n2 m0 m1 m2).
+Proof.
+  unfold C13_comp_marg_a0_R. cbv zeta.
+  repeat destr_dec; simpl; try reflexivity; trig_abstract;
+  match goal with |- context [sqrt ?e] => replace e with 1 by nsatz end;
+  rewrite sqrt_1; unfold sq4; rewrite !div_one; nsatz.
+Qed.
